@@ -12,41 +12,49 @@ PID = "C15"
 THEOREM_MODULES = ["GuppyVerif.Props.C15"]
 DRIVER = "C15"
 RULE = (
-    "overload sets of 2-4 declared variants (arity 0-3; parameter types nat/int/float/bool, tuples of them, quantified "
-    "T0/T1, tuples containing a quantified type; result type numeric/bool/tuple/quantified) x argument lists (typed "
-    "variables incl. tuple-typed ones, int/negative int/float/bool literals, tuple literals, nested tuple literals) in "
-    "synthesis position (`y = ov(..)`) and checking position (`y: T = ov(..)`).  Variants are derived from the argument "
-    "list by near-miss edits (widen a numeric, break a late parameter so that earlier arguments are coerced first, change "
-    "arity, generalise to a type variable, change the result type).  non-trivial = at least 2 variants and the first "
-    "variant does not accept (per the direct-call oracle)."
+    "overload sets of 2-4 variants: declared functions (arity 0-3; parameter types nat/int/float/bool/qubit, tuples, quantified "
+    "T0/T1; `nat @comptime` parameters; `qubit @owned` vs borrowed parameters; result numeric/bool/tuple/quantified), nested "
+    "@guppy.overload functions used as variants, and a custom-checker variadic function (any number of ints) x argument lists "
+    "(typed variables incl. tuple-typed and qubit ones, int/negative int/float/bool literals, tuple literals, nested tuple "
+    "literals) in synthesis position (`y = ov(..)`) and three checking positions (`y: T = ov(..)`, `return ov(..)`, "
+    "`consume(ov(..))`), called from a regular function and (subset) from a `@guppy.comptime` function.  Variants are derived from "
+    "the argument list by near-miss edits (widen a numeric, break a late parameter so that earlier arguments are coerced first, "
+    "change arity, generalise to a type variable, change the result type, demand a compile-time value).  non-trivial = at least 2 "
+    "variants and the first variant does not accept (per the direct-call oracle)."
 )
 ASSUMPTIONS = [
-    "a direct call `v_k(args)` in a fresh program is the reference for 'variant k accepts' (the property's own wording)",
+    "a direct call `v_k(args)` in a fresh program is the reference for 'variant k accepts' (the property's own wording); a direct "
+    "call that fails only in the linearity checker counts as accepted by signature, and the overloaded call must then fail the same way",
     "result-type variables of generated variants occur in their parameters (otherwise the real check_call makes a second, "
     "expected-type-driven pass that the model does not have)",
 ]
 UNMODELLED = [
-    "variants with comptime / inout / owned parameters, non-numeric coercions, lists, function-typed arguments, varargs custom checkers",
+    "lists, function-typed arguments, comptime parameters other than `nat @comptime` (declarations cannot be monomorphized for them), "
+    "custom checkers other than the all-ints one used in the tie",
     "the diagnostic text of OverloadNoMatchError (argument types printed, available-overloads hint)",
     "compile_call of the chosen variant (the call is replaced by a plain GlobalCall of the variant; lowering is C01/C13)",
+    "comptime callers: only the chosen variant is compared (read from the lowered Call target), not the checked argument types",
 ]
 MANIFEST = {
     "level_text": "Lean theorems over the modelled resolution loop, for all variant lists / argument lists / both positions: "
     "first_match (resolves to index i with outcome o iff i is the first listed variant that accepts and o is that variant's own "
-    "outcome), reject_iff_none, same_as_direct, shared_eq_fresh_of_no_mutation, and d8_shared_violates_first_match (the pre-fix "
-    "argument-sharing loop provably violates the property on the D8 witness).  Tied to /repo by generated overload sets run through "
-    "the real check(): chosen variant (GlobalCall.def_id), result type and checked argument types read from the checked AST and "
-    "compared with the model and with a direct-call oracle (each variant called directly in a fresh program, first success wins).",
-    "level_note": "Model is of the repaired overloaded.py (fix 72c6a2d for D8: each attempt gets a deep copy of the arguments). The "
-    "acceptance model (arity, nat<int<float widening, tuple literals element-wise, first-order matching of quantified parameters, "
-    "exact result-type match) is hand-written and tied by sampling. Trusted: Lean kernel, Spec/C15.lean, the program printer.",
+    "outcome), reject_iff_none, same_as_direct, nested_accepts_iff, shared_eq_fresh_of_no_mutation, and d8_shared_violates_first_match "
+    "(the pre-fix argument-sharing loop provably violates the property on the D8 witness).  Tied to /repo by generated overload sets "
+    "run through the real check(): chosen variant (GlobalCall.def_id), result type and checked argument types read from the checked "
+    "AST and compared with the model and with a direct-call oracle (each variant called directly in a fresh program, first success wins).",
+    "level_note": "Model is of the repaired overloaded.py (fix 72c6a2d for D8, reworked by 68a571d: each attempt gets a fresh copy of the "
+    "argument ASTs). The acceptance model (arity, nat<int<float widening, tuple literals element-wise, first-order matching of quantified "
+    "parameters, `@comptime` needs a literal, exact result-type match, nested overloads, one custom checker) is hand-written and tied by "
+    "sampling. Trusted: Lean kernel, Spec/C15.lean, the program printer.",
     "technique": "Lean 4 proof over a hand-written model + differential correspondence through real check() + direct-call oracle",
     "design_ref": "DESIGN.md §5 C15",
     "ready": True,
 }
 
 # ------------------------------------------------------------------ types / args (abstract)
-# ty: "n" | "i" | "f" | "b" | ("t", [ty…]) | ("v", k)
+# ty: "n" | "i" | "f" | "b" | "q" | ("t", [ty…]) | ("v", k)
+# variant: [params, ret] | [params, ret, comptime flags, owned flags] | ["o", [sig…]] nested overload | "ai" custom checker
+# case: {variants, args, exp, pos: syn|ann|ret|arg, comptime_caller: bool}
 # arg: ("y", ty) | "li" | "ln" | "lf" | "lb" | ("t", [arg…])
 NUM = ["n", "i", "f"]
 BASE = ["n", "i", "f", "b"]
@@ -54,7 +62,7 @@ BASE = ["n", "i", "f", "b"]
 
 def ty_src(t):
     if isinstance(t, str):
-        return {"n": "nat", "i": "int", "f": "float", "b": "bool"}[t]
+        return {"n": "nat", "i": "int", "f": "float", "b": "bool", "q": "qubit"}[t]
     if t[0] == "v":
         return f"T{t[1]}"
     return "tuple[" + ", ".join(ty_src(x) for x in t[1]) + "]"
@@ -91,6 +99,10 @@ def arg_src(a, used):
         return "1.5"
     if a == "lb":
         return "True"
+    if a[0] == "y" and a[1] == "q":
+        n = sum(1 for u in used if isinstance(u, tuple) and u[0] == "qv")
+        used.add(("qv", n))
+        return f"xq{n}"
     if a[0] == "y":
         used.add(_freeze(a[1]))
         return "x_" + ty_name(a[1])
@@ -132,20 +144,94 @@ def synth_ty(a):
 
 
 # ------------------------------------------------------------------ program printing
+CUSTOM = '''
+class _AllInts(CustomCallChecker):
+    def synthesize(self, args):
+        for arg in args:
+            arg, ty = ExprSynthesizer(self.ctx).synthesize(arg)
+            if ty != int_type():
+                raise GuppyTypeError(TypeMismatchError(arg, int_type(), ty))
+        return GlobalCall(def_id=%(sink)s.id, args=[], type_args=[]), int_type()
+
+    def check(self, args, ty):
+        node, syn = self.synthesize(args)
+        node, subst, _ = check_type_against(syn, ty, node, self.ctx)
+        return node, subst
+
+
+@custom_function(checker=_AllInts(), higher_order_value=False)
+def %(name)s(*args): ...
+'''
+PRELUDE_EXTRA = (
+    "from guppylang.std.quantum import qubit\n"
+    "from guppylang_internals.decorator import custom_function\n"
+    "from guppylang_internals.definition.custom import CustomCallChecker\n"
+    "from guppylang_internals.checker.expr_checker import ExprSynthesizer, check_type_against\n"
+    "from guppylang_internals.nodes import GlobalCall\n"
+    "from guppylang_internals.tys.builtin import int_type\n"
+    "from guppylang_internals.error import GuppyTypeError\n"
+    "from guppylang_internals.checker.errors.type_errors import TypeMismatchError\n"
+)
+
+
+def vkind(v):
+    if v == "ai":
+        return "ai"
+    return "o" if v[0] == "o" else "p"
+
+
+def sig_decl(name, sig):
+    ps, r = sig[0], sig[1]
+    cf = sig[2] if len(sig) > 2 else []
+    of = sig[3] if len(sig) > 3 else []
+    parts = []
+    for j, p_ in enumerate(ps):
+        t = ty_src(p_)
+        if j < len(cf) and cf[j]:
+            t += " @comptime"
+        if j < len(of) and of[j]:
+            t += " @owned"
+        parts.append(f"a{j}: {t}")
+    return f"@guppy.declare\ndef {name}({', '.join(parts)}) -> {ty_src(r)}: ..."
+
+
 def program(case, direct=None):
     """source of the test program; direct=k calls variant k directly instead of the overload"""
     used: set = set()
     args = ", ".join(arg_src(a, used) for a in case["args"])
     out = ['T0 = guppy.type_var("T0")', 'T1 = guppy.type_var("T1")']
-    for k, (ps, r) in enumerate(case["variants"]):
-        params = ", ".join(f"a{j}: {ty_src(p)}" for j, p in enumerate(ps))
-        out.append(f"@guppy.declare\ndef v{k}({params}) -> {ty_src(r)}: ...")
-    if len(case["variants"]) >= 2:
-        out.append("@guppy.overload(" + ", ".join(f"v{k}" for k in range(len(case["variants"]))) + ")\ndef ov(): ...")
+    for k, v in enumerate(case["variants"]):
+        kind = vkind(v)
+        if kind == "p":
+            out.append(sig_decl(f"v{k}", v))
+        elif kind == "o":
+            for j, sg in enumerate(v[1]):
+                out.append(sig_decl(f"v{k}_{j}", sg))
+            out.append("@guppy.overload(" + ", ".join(f"v{k}_{j}" for j in range(len(v[1]))) + f")\ndef v{k}(): ...")
+        else:
+            out.append(f"@guppy.declare\ndef sink{k}() -> int: ...")
+            out.append(CUSTOM % {"sink": f"sink{k}", "name": f"v{k}"})
+    out.append("@guppy.overload(" + ", ".join(f"v{k}" for k in range(len(case["variants"]))) + ")\ndef ov(): ...")
     callee = "ov" if direct is None else f"v{direct}"
-    params = ", ".join(f"x_{ty_name(_thaw(t))}: {ty_src(_thaw(t))}" for t in sorted(used, key=str))
-    stmt = f"y = {callee}({args})" if case["exp"] is None else f"y: {ty_src(case['exp'])} = {callee}({args})"
-    out.append(f"@guppy\ndef test({params}) -> None:\n    {stmt}\n")
+    params = []
+    for t in sorted(used, key=str):
+        if isinstance(t, tuple) and t[0] == "qv":
+            params.append(f"xq{t[1]}: qubit")
+        else:
+            params.append(f"x_{ty_name(_thaw(t))}: {ty_src(_thaw(t))}")
+    params = ", ".join(params)
+    pos, exp = case.get("pos", "syn" if case["exp"] is None else "ann"), case["exp"]
+    dec = "@guppy.comptime" if case.get("comptime_caller") else "@guppy"
+    call = f"{callee}({args})"
+    if pos == "syn":
+        out.append(f"{dec}\ndef test({params}) -> None:\n    y = {call}\n")
+    elif pos == "ann":
+        out.append(f"{dec}\ndef test({params}) -> None:\n    y: {ty_src(exp)} = {call}\n")
+    elif pos == "ret":
+        out.append(f"{dec}\ndef test({params}) -> {ty_src(exp)}:\n    return {call}\n")
+    else:
+        out.append(f"@guppy.declare\ndef consume(x: {ty_src(exp)}) -> None: ...")
+        out.append(f"{dec}\ndef test({params}) -> None:\n    consume({call})\n")
     return "\n".join(out)
 
 
@@ -159,11 +245,13 @@ def real_ty(t):
         return ("t", [real_ty(x) for x in t.element_types])
     if isinstance(t, OpaqueType) and t.defn.name == "bool":
         return "b"
+    if isinstance(t, OpaqueType) and t.defn.name == "qubit":
+        return "q"
     return "?" + str(t)
 
 
 def run_real(case, direct=None):
-    """-> ('ok', idx, ret, argtys) | ('none',) | ('err', class) | ('crash', class)"""
+    """-> ('ok', idx, ret, argtys) | ('none',) | ('lin', class) | ('err', class) | ('crash', class)"""
     import ast
 
     import feed
@@ -174,17 +262,32 @@ def run_real(case, direct=None):
 
     src = program(case, direct)
     try:
-        m = feed.load(src)
+        m = feed.load(src, prelude=feed.PRELUDE + PRELUDE_EXTRA)
     except Exception as e:  # noqa: BLE001
         return ("load-exception", type(e).__name__), src
     try:
-        ids = {getattr(m, f"v{k}").id: k for k in range(len(case["variants"]))}
+        ids = {}
+        for k, v in enumerate(case["variants"]):
+            kind = vkind(v)
+            if kind == "p":
+                ids[getattr(m, f"v{k}").id] = str(k)
+            elif kind == "o":
+                for j in range(len(v[1])):
+                    ids[getattr(m, f"v{k}_{j}").id] = f"{k}.{j}"
+            else:
+                ids[getattr(m, f"sink{k}").id] = str(k)
+        if case.get("comptime_caller"):
+            return _run_comptime(m, ids, case), src
         try:
             ENGINE.reset()
             ENGINE.check(m.test.id)
         except GuppyError as e:
             cls = type(e.error).__name__
-            return (("none",) if cls == "OverloadNoMatchError" else ("err", cls)), src
+            if cls == "OverloadNoMatchError":
+                return ("none",), src
+            if "linearity" in type(e.error).__module__:
+                return ("lin", cls), src
+            return ("err", cls), src
         except BaseException as e:  # noqa: BLE001
             return ("crash", type(e).__name__), src
         checked = ENGINE.checked[m.test.id]
@@ -201,9 +304,50 @@ def run_real(case, direct=None):
         feed.unload(m)
 
 
-def show(res):
+def _run_comptime(m, ids, case):
+    """comptime caller: the function body is traced by CPython; the chosen variant is the target of the Call in the Hugr"""
+    import feed
+    import hugr.ops as ops
+    from guppylang_internals.error import GuppyComptimeError, GuppyError
+
+    names = {}
+    for k, v in enumerate(case["variants"]):
+        kind = vkind(v)
+        if kind == "p":
+            names[f"v{k}"] = str(k)
+        elif kind == "o":
+            for j in range(len(v[1])):
+                names[f"v{k}_{j}"] = f"{k}.{j}"
+        else:
+            names[f"sink{k}"] = str(k)
+    try:
+        g = feed.lower(m.test)
+    except (GuppyError, GuppyComptimeError) as e:
+        d = getattr(e, "error", None)
+        cls = type(d).__name__ if d is not None else type(e).__name__
+        txt = str(e)
+        if cls == "OverloadNoMatchError" or "No variant of overloaded function" in txt:
+            return ("none",)
+        return ("err", cls)
+    except BaseException as e:  # noqa: BLE001
+        return ("crash", type(e).__name__)
+    h = g.hugr
+    found = []
+    for n in h:
+        if isinstance(h[n].op, ops.Call):
+            for i in range(h.num_in_ports(n)):
+                for q in h.linked_ports(n.inp(i)):
+                    op = h[q.node].op
+                    if isinstance(op, (ops.FuncDecl, ops.FuncDefn)) and op.f_name.split(".")[-1] in names:
+                        found.append(names[op.f_name.split(".")[-1]])
+    if len(found) != 1:
+        return ("crash", f"found {len(found)} calls")
+    return ("ok", found[0], "?", [])
+
+
+def show(res, with_types=True):
     if res[0] == "ok":
-        return " ".join([str(res[1]), ty_sx(res[2]), *[ty_sx(t) for t in res[3]]])
+        return " ".join([str(res[1]), ty_sx(res[2]), *[ty_sx(t) for t in res[3]]]) if with_types and res[2] != "?" else str(res[1])
     if res[0] == "none":
         return "none"
     return ":".join(res)
@@ -211,15 +355,16 @@ def show(res):
 
 # ------------------------------------------------------------------ oracle: direct calls
 def oracle(case):
-    """first variant whose direct call in a fresh program succeeds; its result and argument types"""
-    accepted = []
+    """first variant whose direct call in a fresh program is accepted by signature (succeeds, or fails only in the
+    linearity checker); the outcome of that direct call is what the overloaded call must give"""
+    accepted, first = [], None
     for k in range(len(case["variants"])):
         r, _ = run_real(case, direct=k)
-        if r[0] == "ok":
+        if r[0] in ("ok", "lin"):
             accepted.append(k)
-            if len(accepted) == 1:
-                first = ("ok", k, r[2], r[3])
-        elif r[0] not in ("err",):
+            if first is None:
+                first = r
+        elif r[0] not in ("err", "none"):
             return ("oracle-" + r[0], r[1]), accepted
     return (first if accepted else ("none",)), accepted
 
@@ -320,33 +465,81 @@ def rand_variant(rng, args, fit_prob):
     return [ps, ret], r < fit_prob
 
 
+def decorate(rng, v, args):
+    """add `@comptime` to some nat parameters and `@owned` to some qubit parameters of a plain variant"""
+    ps = v[0]
+    cf = [int(p_ == "n" and rng.random() < 0.45) for p_ in ps]
+    of = [int(p_ == "q" and rng.random() < 0.4) for p_ in ps]
+    return [ps, v[1], cf, of]
+
+
 def rand_case(rng):
     args = [rand_arg(rng) for _ in range(rng.choice([0, 1, 1, 2, 2, 2, 3]))]
+    r0 = rng.random()
+    if r0 < 0.25:
+        # make nat arguments frequent (comptime parameters) / all-int argument lists (custom checker)
+        args = [rng.choice([("y", "n"), "li", ("y", "i"), "li", ("y", "n")]) for _ in range(rng.choice([1, 1, 2, 3]))]
+    elif r0 < 0.37 and len(args) < 3:
+        args.insert(rng.randrange(len(args) + 1), ("y", "q"))
     nv = rng.choice([2, 2, 3, 3, 4])
     first_fit = rng.random() < 0.2
     variants, fitting = [], []
     for k in range(nv):
         fit = 0.85 if (k == 0 and first_fit) else (0.08 if k == 0 else 0.55)
-        v, fits = rand_variant(rng, args, fit)
-        variants.append(v)
-        if fits and not tyvars(v[1], set()):
-            fitting.append(v[1])
-    exp = None
-    if rng.random() < 0.45:
-        # checking position: usually the result type of some variant (closed ones), sometimes something else
-        closed = [v[1] for v in variants if not tyvars(v[1], set())]
+        rk = rng.random()
+        if rk < 0.16:
+            # an overloaded function as a variant: 2-3 inner plain variants
+            inner = []
+            for _ in range(rng.choice([2, 2, 3])):
+                v, fits = rand_variant(rng, args, fit * 0.6)
+                inner.append(decorate(rng, v, args))
+                if fits and not tyvars(v[1], set()):
+                    fitting.append(v[1])
+            variants.append(["o", inner])
+        elif rk < 0.24:
+            variants.append("ai")
+            fitting.append("i")
+        else:
+            v, fits = rand_variant(rng, args, fit)
+            variants.append(decorate(rng, v, args))
+            if fits and not tyvars(v[1], set()):
+                fitting.append(v[1])
+    exp, pos = None, "syn"
+    if rng.random() < 0.55:
+        pos = rng.choice(["ann", "ann", "ret", "arg"])
+        closed = []
+        for v in variants:
+            for sg in ([v] if vkind(v) == "p" else v[1] if vkind(v) == "o" else []):
+                if not tyvars(sg[1], set()):
+                    closed.append(sg[1])
         if fitting and rng.random() < 0.7:
             exp = fitting[-1] if rng.random() < 0.5 else rng.choice(fitting)
         elif closed and rng.random() < 0.7:
             exp = rng.choice(closed)
         else:
             exp = rand_ty(rng, 1)
-    return {"variants": variants, "args": args, "exp": exp}
+    case = {"variants": variants, "args": args, "exp": exp, "pos": pos, "comptime_caller": False}
+    if pos == "syn" and rng.random() < 0.12 and all(isinstance(a, tuple) and a[0] == "y" and a[1] != "q" for a in args):
+        # a traced value given to a `nat @comptime` parameter crashes lowering (AssertionError in ConstArg.to_hugr; not
+        # an overload matter): no comptime parameters in comptime-caller cases
+        case["comptime_caller"] = True
+        for v in variants:
+            for sg in ([v] if vkind(v) == "p" else v[1] if vkind(v) == "o" else []):
+                sg[2] = [0] * len(sg[2])
+    return case
+
+
+def sig_sx(sg):
+    cf = sg[2] if len(sg) > 2 else []
+    return "((" + " ".join(ty_sx(p_) for p_ in sg[0]) + ") " + ty_sx(sg[1]) + " (" + " ".join(str(int(c)) for c in cf) + "))"
 
 
 def line(case, op="res"):
-    vs = " ".join("((" + " ".join(ty_sx(p) for p in ps) + ") " + ty_sx(r) + ")" for ps, r in case["variants"])
-    return f"({op} {'-' if case['exp'] is None else ty_sx(case['exp'])} ({vs}) ({' '.join(arg_sx(a) for a in case['args'])}))"
+    vs = []
+    for v in case["variants"]:
+        kind = vkind(v)
+        vs.append("ai" if kind == "ai" else sig_sx(v) if kind == "p" else "(o " + " ".join(sig_sx(sg) for sg in v[1]) + ")")
+    return f"({op} {'-' if case['exp'] is None else ty_sx(case['exp'])} ({' '.join(vs)}) ({' '.join(arg_sx(a) for a in case['args'])}))"
 
 
 def _norm(c):
@@ -360,8 +553,19 @@ def _norm(c):
             return a
         return ("y", ty(a[1])) if a[0] == "y" else ("t", [arg(x) for x in a[1]])
 
-    return {"variants": [[[ty(p) for p in ps], ty(r)] for ps, r in c["variants"]],
-            "args": [arg(a) for a in c["args"]], "exp": None if c["exp"] is None else ty(c["exp"])}
+    def sig(sg):
+        return [[ty(p_) for p_ in sg[0]], ty(sg[1]), list(sg[2]) if len(sg) > 2 else [], list(sg[3]) if len(sg) > 3 else []]
+
+    def var(v):
+        if v == "ai":
+            return "ai"
+        if v[0] == "o":
+            return ["o", [sig(sg) for sg in v[1]]]
+        return sig(v)
+
+    exp = None if c["exp"] is None else ty(c["exp"])
+    return {"variants": [var(v) for v in c["variants"]], "args": [arg(a) for a in c["args"]], "exp": exp,
+            "pos": c.get("pos", "syn" if exp is None else "ann"), "comptime_caller": bool(c.get("comptime_caller", False))}
 
 
 def cases(ctx):
@@ -389,19 +593,33 @@ def tie(ctx):
         res, src = run_real(c)
         orc, accepted = oracle(c)
         r, o = show(res), show(orc)
-        key = "case:" + ln
+        key = "case:" + ln + f" pos={c['pos']}" + (" comptime" if c["comptime_caller"] else "")
         nontrivial = len(c["variants"]) >= 2 and 0 not in accepted
-        ctx.count(ln, nontrivial=nontrivial,
-                  kind=("chk" if c["exp"] is not None else "syn") + ":" + (res[0] if res[0] != "ok" else f"v{res[1]}"))
+        kinds = "".join(sorted({vkind(v) for v in c["variants"]}))
+        ctx.count(key, nontrivial=nontrivial,
+                  kind=("ct-" if c["comptime_caller"] else "") + c["pos"] + ":" + kinds + ":" + (res[0] if res[0] != "ok" else f"v{res[1]}"))
         replay = {"case": c, "line": ln, "source": src, "real": r, "oracle": o, "model": mv, "accepting_variants": accepted}
-        if res[0] in ("crash", "load-exception", "err") or orc[0].startswith("oracle-"):
+        if res[0] in ("crash", "load-exception") or orc[0].startswith("oracle-"):
             ctx.broke(f"generated program outside the modelled fragment: real={r} oracle={o}\n{src}")
             continue
+        # --- the property on the real code: same outcome as a direct call of the first accepting variant
         if r != o:
-            ctx.violation(key, f"overloaded call resolves to `{r}` but the first variant accepting a direct call gives `{o}` "
-                          f"(variants accepting directly: {accepted}):\n{src}", replay)
-        if r != mv:
-            ctx.broke(f"correspondence Model/Overload.lean vs overloaded.py: model=`{mv}` real=`{r}` on {ln}")
+            ctx.violation(key, f"overloaded call gives `{r}` but the first variant accepting a direct call gives `{o}` "
+                          f"(variants accepting directly: {accepted}; position {c['pos']}):\n{src}", replay)
+        # --- model vs real
+        if res[0] == "ok" and res[2] == "?":
+            agree = mv.split(" ")[0] == str(res[1])          # comptime caller: chosen variant only
+        elif res[0] == "ok":
+            agree = mv == r
+        elif res[0] == "none":
+            agree = mv == "none"
+        elif res[0] == "lin":
+            # rejected later by the linearity checker: resolution itself picked the oracle's variant
+            agree = mv != "none" and orc[0] == "lin" and accepted and mv.split(" ")[0].split(".")[0] == str(accepted[0])
+        else:
+            agree = False
+        if not agree:
+            ctx.broke(f"correspondence Model/Overload.lean vs overloaded.py: model=`{mv}` real=`{r}` on {ln} pos={c['pos']}\n{src}")
 
 
 if __name__ == "__main__":
